@@ -196,7 +196,9 @@ def program(rng, **kw):
                 env = {d["dt"]: 0.1}
                 env.update({n: trial.gauss(0, 1) * sc for n in d["state"] + d["control"]})
                 env.update(d["calibration_map"])
-                if max_exp_argument(d, env) <= EXP_ARG_LIMIT:
+                # ... and definitions that sit on a kink *everywhere* (|x - x|, acos(cos(0*x))) likewise:
+                # they are differentiable nowhere
+                if max_exp_argument(d, env) <= EXP_ARG_LIMIT and not near_kink(d, env):
                     ok = True
                     break
             if ok:
